@@ -398,6 +398,10 @@ func (x *Exec) globalVal(o *types.Var) Val {
 	if x.entry != nil {
 		x.S.Axiom("gwf_"+name, []string{name}, x.wf(name, o.Type(), x.entry, 0))
 	}
+	if k == "geom.nativeOrder" {
+		le, be := x.byteOrderConst(true), x.byteOrderConst(false)
+		x.S.Axiom("nativeorder", []string{name}, "(or (= "+name+" "+le+") (= "+name+" "+be+"))")
+	}
 	// error sentinels are non-nil
 	if _, isIface := o.Type().Underlying().(*types.Interface); isIface && strings.HasPrefix(o.Name(), "Err") || o.Name() == "Stop" {
 		x.S.Axiom("gnn_"+name, []string{name}, "(> "+name+" 0)")
